@@ -5,27 +5,40 @@ real vm.EVM over a real account.Manager (twice with ample gas, twice with a seed
 events recorded by a vm.Tracer, the real post-state and the gas numbers are re-executed and compared by TLC in
 TraceCallFrames.tla.  Seeded drivers add deeper random trees, arbitrary byte strings / opcode soups / precompile
 inputs / creations and unbounded recursion (depth limit), validated by the same trace spec.
+CREATION FRAMES are a frame kind of the model (transaction-level creation and CREATE; ways to end: ok, revert, error,
+returned code too big, deposit not affordable; refused for a collision): the tree is compiled to init code, the trace
+spec re-executes endowment, init-code writes, inner frames, the code deposit rule and the exact gas accounting.
 BOUNDARY-OPERAND layer (CallFramesBoundary.tla): TLC enumerates (opcode, operand classes, context) tuples - operands on
 the edges of every range the platform checks, 256-bit exact arithmetic in the spec - each tuple is compiled into a tiny
-real program, run twice on the real EVM inside a wrapper frame, and judged by TraceCallFramesBoundary.tla."""
+real program, run twice on the real EVM inside a wrapper frame, and judged by TraceCallFramesBoundary.tla.  The code a
+jump executes in is an operand as well: it ends with a PUSHn cut off by the end of the code, at every length modulo 8."""
 import os, re, json, time, random, threading, collections, concurrent.futures
 LEVEL = "model_checking"
 
 MANIFEST = dict(
     level="model_checking",
     text="TLC checks the six sandbox clauses on every reachable state of the call-frame model (4 call kinds x {ok, revert, fail, selfdestruct} x "
-         "sstore/log/value transfer, nested to depth 3, journal-based revert; the two known journal defects as negative controls). Every transition of "
+         "sstore/log/value transfer, nested to depth 3, journal-based revert; the two known journal defects as negative controls) and of the "
+         "creation-frame model (transaction-level creation and CREATE x {ok, revert, fail, selfdestruct, returned code longer than the maximum, "
+         "code deposit not paid for by the gas left} x endowment / storage written by the init code / inner calls and creations, creations "
+         "refused for an address collision; a creation whose deposit failure is not rolled back as negative control). Every transition of "
          "the small state graph is covered by complete TLC behaviours, each compiled to real EVM bytecode and executed on the real EVM + account "
          "manager + store; TLC re-executes the frame events a vm.Tracer recorded (context, read-only, success flag, exact gas accounting, 63/64 rule) "
          "and requires the real post-state to equal the re-executed world (all-or-nothing, read-only is a no-op), identical twin runs (determinism), "
-         "gas left <= supplied and depth <= 1024. Simulated deeper behaviours, seeded random trees, random byte strings, opcode soups, precompile "
+         "gas left <= supplied and depth <= 1024. A creation frame is re-executed with the platform's deposit rule: it succeeds iff the returned "
+         "code is at most 24576 bytes and 200 gas per byte are left, then exactly the deposit is charged; otherwise endowment, init-code storage "
+         "and inner frames are undone, all its gas is gone and only the failure record stays; starved runs put the gas limit one unit below "
+         "what the deposit needs. Simulated deeper behaviours (all five frame kinds), seeded random trees, random byte strings, opcode soups "
+         "(a third of them wrapped into code that jumps and ends with a truncated PUSH), precompile "
          "inputs and unbounded recursion are validated the same way. Boundary-operand layer: for 54 opcodes taking memory / data offsets, lengths, "
          "gas, value, address, jump-destination or arithmetic operands TLC enumerates (opcode, operand-class tuple, context) with operand classes "
          "0,1,31,32,33,N-1,N,N+1,2^32-1,2^32,2^63,2^64-1,2^64,2^64+1,2^128,2^255,2^256-1 (N = memory / return data / call data / code length, "
          "balance, stipend), contexts {prior call left return data} x {read-only frame} x {ample, starved gas}; every tuple is compiled to a real "
          "program and run twice on the real EVM; TLC judges: no panic, identical runs, gas never grows, failed / read-only frame leaves the state "
          "untouched, the demanded outcome (exact 256-bit arithmetic: out-of-bounds RETURNDATACOPY and unaffordable memory must fail, the rest must "
-         "succeed) and exact memory size, copied / returned bytes and fixed result words. Quick: all tuples of the three copy opcodes, of EXTCODECOPY "
+         "succeed) and exact memory size, copied / returned bytes and fixed result words. For JUMP / JUMPI the code itself is an operand: it "
+         "ends with PUSHn (n in 1,2,7,8,9,15,16,17,23,24,25,31,32) of whose data 0, 1, n-1 or n bytes are there, at every code length modulo 8, "
+         "short or 40 000 bytes long, destinations: the JUMPDEST, a 0x5b byte in the cut-off data, the last byte, the first byte behind the code. Quick: all tuples of the three copy opcodes, of EXTCODECOPY "
          "from the data contract and of the small families (jumps, storage, MSTORE, account opcodes) + a seeded 1/16 sample of the rest; "
          "thorough: every tuple.",
     note="Published events are counted from the change journal (what a block publishes); the platform's failure event after a failed call is "
@@ -193,16 +206,21 @@ def boundary_layer(ctx, pool):
                 op = op[:op.index('"')]
                 ok = json.loads(ln[ln.index('"r1":') + 5:ln.index(',"r2":')])
                 st[(op, "ok" if ok[3] == 1 else "failed")] += 1
+                if op in ("JUMP", "JUMPI"):                      # the code-shape classes
+                    i = ln.index('"cls":') + 6
+                    if json.loads(ln[i:ln.index("]", i) + 1])[-4] != "none":
+                        st[("shaped code", "ok" if ok[3] == 1 else "failed")] += 1
                 if ok[0]:
                     st["panicked"] += 1
                 if sample is None and op == "RETURNDATACOPY" and ok[3] == 1:
                     cand = json.loads(ln)
                     if cand["cls"][2] not in ("0", "1") and cand["cls"][0] != "0":
                         sample = cand
-        ops = sorted({k[0] for k in st if isinstance(k, tuple)})
+        ops = sorted({k[0] for k in st if isinstance(k, tuple) and k[0] != "shaped code"})
+        ctx.extra["boundary_code_shapes"] = dict(frames_ok=st[("shaped code", "ok")], frames_failed=st[("shaped code", "failed")])
         ctx.extra["boundary_layer"] = dict(tuples=rows, opcodes=len(ops), panicked_runs=st["panicked"],
                                            frames_ok={o: st[(o, "ok")] for o in ops}, frames_failed={o: st[(o, "failed")] for o in ops})
-        gate = ("RETURNDATACOPY", "CALLDATACOPY", "CODECOPY", "EXTCODECOPY", "JUMP", "JUMPI", "MSTORE", "SSTORE", "SELFDESTRUCT")   # complete in both tiers
+        gate = ("RETURNDATACOPY", "CALLDATACOPY", "CODECOPY", "EXTCODECOPY", "JUMP", "JUMPI", "shaped code", "MSTORE", "SSTORE", "SELFDESTRUCT")   # complete in both tiers
         if not quick:
             gate += ("CALL", "CALLCODE", "DELEGATECALL", "STATICCALL", "RETURN", "SHA3", "LOG0", "LOG4", "CREATE")
         for o in gate:
@@ -254,7 +272,7 @@ def run(ctx):
                 raise vlib.Broken("vacuity: actions never taken in the thorough design run: %s" % zero)
             ctx.tlc_exhaustive("MCCallFrames", "MCCallFrames_base.cfg", timeout=900, workers=8)
         ctx.tlc_exhaustive("MCCallFrames", "MCCallFrames_depth.cfg", timeout=300, workers=4)
-        for cfg, want in (("MCCallFrames_negS.cfg", "FailedFrameIsNoop"), ("MCCallFrames_negG.cfg", "NoCrash")):
+        for cfg, want in (("MCCallFrames_negS.cfg", "FailedFrameIsNoop"), ("MCCallFrames_negG.cfg", "NoCrash"), ("MCCallFrames_negC.cfg", "FailedFrameIsNoop")):
             neg = ctx.tlc("MCCallFrames", cfg, timeout=600, workers=4, expect_ok=False)
             ctx.extra.setdefault("negative_controls", {})[cfg] = neg["inv"]
             if neg["inv"] != want:
@@ -262,13 +280,21 @@ def run(ctx):
     fut_design = pool.submit(design)
 
     # ---- spec -> code: complete behaviours covering every edge of the small state graph(s)
-    files, summ = [], None
-    graphs = [("MCCallFrames_graph.cfg", "cover", 600 if quick else 0)]
+    # creation frames: transaction-level creation and CREATE, every way a creation frame ends (ok, revert, error, code too
+    # big, deposit not affordable), endowment, storage written by the init code, inner calls; collisions
+    graphs = [("MCCallFrames_graph.cfg", "cover", 600 if quick else 0),
+              ("MCCallFrames_create.cfg", "create", 500 if quick else 0),
+              ("MCCallFrames_collide.cfg", "collide", 150 if quick else 1500)]
     if not quick:
         graphs.append(("MCCallFrames_graph4.cfg", "cover4", 25000))     # a step deeper, 3 call kinds, no value
-    for cfg, name, cap in graphs:
+        graphs.append(("MCCallFrames_create2.cfg", "create2", 6000))    # two contracts, one of them colliding
+
+    def graph_job(idx, cfg, name, cap):
+        mod = "MCCallFramesG%d" % idx                                   # (a module name of its own: see above)
+        with open(os.path.join(ctx.specdir, mod + ".tla"), "w") as fh:
+            fh.write(src.replace("MODULE MCCallFrames", "MODULE " + mod))
         dot = ctx.path(name + ".dot")
-        ctx.tlc_exhaustive("MCCallFramesG", cfg, timeout=900, dump=dot, workers=4)
+        ctx.tlc_exhaustive(mod, cfg, timeout=900, dump=dot, workers=4)
         init_label, paths, nedges = path_cover(dot, ctx.seed)
         os.remove(dot)
         total = len(paths)
@@ -277,24 +303,31 @@ def run(ctx):
             paths = paths[:cap]
         g = write_sim(ctx, name, init_label, paths)
         ctx.log("state graph %s: %d edges covered by %d complete behaviours, replaying %d" % (cfg, nedges, total, len(paths)))
-        fs, sm = ctx.replay("callframes", sim=g, shards=16, name="callframes-" + name)
+        fs, sm = ctx.replay("callframes", sim=g, shards=16 if len(paths) > 2000 else 8, name="callframes-" + name)
+        return dict(cfg=cfg, transitions_in_graph=nedges, cover_behaviours_total=total, cover_behaviours_replayed=len(paths)), fs, sm
+
+    # ---- deeper behaviours of the big configuration (all five frame kinds) by simulation
+    def sim_job():
+        nsim = 300 if quick else 8000
+        glob2 = ctx.tlc_simulate("MCCallFramesG", "MCCallFrames_sim.cfg", nsim, 80, "deep", timeout=900)
+        return ctx.replay("callframes", sim=glob2, shards=16, name="callframes-sim")
+    gfuts = [pool.submit(graph_job, i, *g) for i, g in enumerate(graphs)]
+    fut_sim = pool.submit(sim_job)
+    files, summ = [], None
+    for f in gfuts:
+        info, fs, sm = f.result()
         files += fs
-        ctx.extra.setdefault("graph_covers", []).append(dict(cfg=cfg, transitions_in_graph=nedges, cover_behaviours_total=total,
-                                                             cover_behaviours_replayed=len(paths)))
+        ctx.extra.setdefault("graph_covers", []).append(info)
         if summ is None:
             summ = sm
             ctx.cov["samples"] = sm["samples"]
-            ctx.extra["transitions_in_graph"] = nedges
-            ctx.extra["distinct_transitions_replayed"] = nedges if len(paths) == total else None
+            ctx.extra["transitions_in_graph"] = info["transitions_in_graph"]
+            ctx.extra["distinct_transitions_replayed"] = info["transitions_in_graph"] if info["cover_behaviours_replayed"] == info["cover_behaviours_total"] else None
         else:
             for k, v in sm["action_counts"].items():
                 summ["action_counts"][k] = summ["action_counts"].get(k, 0) + v
     ctx.cov["exhaustive"] = not quick
-
-    # ---- deeper behaviours of the big configuration by simulation
-    nsim = 300 if quick else 8000
-    glob2 = ctx.tlc_simulate("MCCallFramesG", "MCCallFrames_sim.cfg", nsim, 80, "deep", timeout=900)
-    files2, summ2 = ctx.replay("callframes", sim=glob2, shards=16, name="callframes-sim")
+    files2, summ2 = fut_sim.result()
 
     # ---- recording drivers: seeded random trees beyond the model's bounds; arbitrary programs
     scr = {"VERIF_SCRATCH_DIR": ctx.path("work", "drivers", ".keep")[:-6]}
@@ -326,7 +359,7 @@ def run(ctx):
     for s in (summ, summ2):
         for k, v in s["action_counts"].items():
             acts[k] += v
-    for a in ("EnterTop", "Enter", "SStore", "Log", "Exit", "Suicide"):
+    for a in ("EnterTop", "Enter", "SStore", "Log", "Exit", "Suicide", "Collide"):
         if not acts[a]:
             raise vlib.Broken("vacuity: action %s never replayed" % a)
 
@@ -338,8 +371,22 @@ def run(ctx):
                 continue
             r = json.loads(ln)
             st["programs"] += 1
+            if r.get("capped"):
+                st["programs_with_capped_gas"] += 1
             for i, x in enumerate(r["runs"]):
                 st["executions"] += 1
+                ob = x["obs"]
+                for j, e in enumerate(ob):              # how the creation frames went
+                    if e["t"] == "call" and e["k"] == "create":
+                        st["creations"] += 1
+                        if j + 1 < len(ob) and ob[j + 1]["t"] == "ret":
+                            st["creations_refused"] += 1
+                    elif e["t"] == "end" and e["cf"]:
+                        left = e["g"] - e["c"]
+                        how = e["k"]
+                        if how in ("stop", "suicide"):
+                            how = "toobig" if e["rl"] > 24576 else "nodeposit" if 200 * e["rl"] > left else "deposited"
+                        st["creation_frames_" + how] += 1
                 if x["crash"]:
                     st["executions_panicked"] += 1
                 elif i >= 2:
@@ -348,23 +395,49 @@ def run(ctx):
     ctx.extra["real_executions"] = dict(st)
     if not st["starved_executions_failed"] or not st["starved_executions_ok"]:
         raise vlib.Broken("vacuity: starved executions did not both fail and survive: %s" % dict(st))
+    for k in ("creations_refused", "creation_frames_deposited", "creation_frames_toobig", "creation_frames_nodeposit", "creation_frames_revert", "creation_frames_err"):
+        if st[k] < 5:
+            raise vlib.Broken("vacuity: creation frames: %s = %d in the real executions: %s" % (k, st[k], dict(st)))
+    if st["programs_with_capped_gas"] * 20 > st["programs"]:
+        raise vlib.Broken("vacuity: %d of %d programs ran with a capped gas plan" % (st["programs_with_capped_gas"], st["programs"]))
 
-    # ---- code -> spec: TLC re-executes what the real EVM did
-    if quick:
-        ctx.validate("TraceCallFrames", "TraceCallFrames.cfg", files + files2 + tree_files,
-                     what="edge-cover behaviours + simulated behaviours + seeded random trees", timeout=1800)
-    else:
-        ctx.validate("TraceCallFrames", "TraceCallFrames.cfg", files, what="edge cover of the state graph", timeout=3000)
-        ctx.validate("TraceCallFrames", "TraceCallFrames.cfg", files2 + tree_files, what="simulated behaviours + seeded random trees", timeout=3000)
-    ctx.validate("TraceCallFrames", "TraceCallFrames.cfg", [rnd], what="byte strings, opcode soups, precompiles, creations, recursion",
-                 timeout=1800, count_behaviours=False)
+    # ---- code -> spec: TLC re-executes what the real EVM did (several validators side by side, each under a module
+    # name of its own)
+    tsrc = open(os.path.join(ctx.specdir, "TraceCallFrames.tla")).read()
+    tcfg = open(os.path.join(ctx.specdir, "TraceCallFrames.cfg")).read()
+    slots = 4 if quick else 6
+    for k in range(slots + 1):
+        with open(os.path.join(ctx.specdir, "TraceCallFrames_v%d.tla" % k), "w") as fh:
+            fh.write(tsrc.replace("MODULE TraceCallFrames", "MODULE TraceCallFrames_v%d" % k))
+        with open(os.path.join(ctx.specdir, "TraceCallFrames_v%d.cfg" % k), "w") as fh:
+            fh.write(tcfg)
+    allf = [f for f in files + files2 + tree_files if os.path.getsize(f) > 0]
+    allf.sort(key=os.path.getsize, reverse=True)
+    groups = [[] for _ in range(slots)]
+    for i, f in enumerate(allf):                                         # biggest first, round robin
+        groups[i % slots].append(f)
+
+    def val(k):
+        if k == slots:
+            return ctx.validate("TraceCallFrames_v%d" % k, "TraceCallFrames_v%d.cfg" % k, [rnd],
+                                what="byte strings, opcode soups, precompiles, creations, recursion", timeout=1800, count_behaviours=False)
+        if not groups[k]:
+            return True
+        return ctx.validate("TraceCallFrames_v%d" % k, "TraceCallFrames_v%d.cfg" % k, groups[k],
+                            what="edge-cover behaviours + simulated behaviours + seeded random trees", timeout=3000)
+    list(pool.map(val, range(slots + 1)))
     fut_design.result()
     fut_boundary.result()
     ctx.assumptions += [
         "universe of the tree programs: sender U, contracts A, B, C holding one dispatcher image, storage slots s1, s2, values 0..2, value transfers 0/1",
         "a frame the model lets 'fail' is compiled to a seeded concrete failure: invalid opcode, out of gas, stack underflow, bad jump, "
         "and inside read-only frames SSTORE / LOG / SELFDESTRUCT / value CALL (write protection)",
-        "CREATE is exercised by the arbitrary-program driver only (no panic, gas bound, determinism, failed => unchanged), not by the tree model",
+        "creation frames: an account creates at most one address per transaction (address = f(creator, tx hash), as the platform derives it); "
+        "the new contract's code is the program image (or 24576 zero bytes); creations issued by a contract created in the same transaction are "
+        "not generated; the code deposit rule (24576 bytes, 200 gas per byte) is a constant of the trace spec; a creation towards an address "
+        "that holds something may be refused (collision) or carried out - both are accepted, refused only if nothing changes",
+        "the init code that must fail the deposit burns its gas below 100 000 by read-only calls of the modexp precompile (a callee without "
+        "account: modelled as a call that runs no code, changes nothing and may burn what it was given) and returns 1000 bytes",
         "published events = AddEventLog entries of the change journal (Account.GetEvents is C07's concern)",
         "per-opcode arithmetic and gas tables are not specified; gas is checked by conservation (exact return accounting, 63/64 cap, never grows)",
         "boundary layer: memory up to 4 KiB is affordable with the 1 000 000 gas of the ample context, 2^32-1 bytes and more with no gas limit "
